@@ -11,6 +11,8 @@ def build(R):
     records.install(R)
     cache_model.install(R)
     cache_model.install_generators(R)
+    cache_model.install_flush_specs(R)
+    cache_model.install_lookups(R)
 
 
 def configure(ctx, R):
